@@ -46,7 +46,44 @@ def rand_pattern(rng, keys, wild):
 MS = match_sets()
 
 
+def gen_fanout_case(rng):
+    """wide trees (several siblings per level, several observers per key) notified through two or three
+    wildcard / regex levels, mostly with by-value class-type arguments: the per-child argument passing of the
+    regex branch is only visible when several children at several levels receive the same pack"""
+    sig = rng.choice([2, 4, 2, 4, 1, 3, 0])
+    kind = rng.below(2)
+    lines = [[1, len(REGEXES), sig, kind]] + [list(ms) for ms in MS]
+    pool = [1, 2, 4, 5, 6, 7, 8, 9]
+    firsts = rng.shuffle(pool)[:rng.range(2, 4)]
+    keys = []
+    for f in firsts:
+        for sname in rng.shuffle(pool)[:rng.range(1, 3)]:
+            if rng.chance(1, 4):
+                for t in rng.shuffle(pool)[:rng.range(1, 2)]:
+                    keys.append([f, sname, t])
+            else:
+                keys.append([f, sname])
+    for k in rng.shuffle(keys):
+        for _ in range(rng.weighted([(1, 3), (2, 1)])):
+            lines.append([0] + k)
+    nh = len(lines) - 1 - len(REGEXES)
+    for _ in range(rng.range(2, 6)):
+        d = rng.choice([2, 2, 3])
+        pat = []
+        for i in range(d):
+            r = rng.below(10)
+            if r < 6: pat += [2]
+            elif r < 8: pat += [1, rng.choice([1, 3, 7])]
+            else: pat += [0, rng.choice(firsts if i == 0 else pool)]
+        lines.append([6, rng.range(1, 99)] + pat)
+        if rng.chance(1, 3):
+            lines.append([rng.choice([1, 2, 4]), rng.below(nh)])
+    return lines
+
+
 def gen_case(rng, maxops, flavour):
+    if flavour == "notify" and rng.chance(1, 4):
+        return gen_fanout_case(rng)
     sig = rng.below(len(SIGS))
     kind = rng.below(2)
     lines = [[1, len(REGEXES), sig, kind]] + [list(ms) for ms in MS]
